@@ -59,6 +59,8 @@ type diffT struct {
 	Replaced  [][]int `json:"replaced"`
 	Storage   [][]int `json:"storage"`
 	Nonces    [][]int `json:"nonces"`
+	// Sierra classes whose compiled class hash the block migrates (v0.10 shows them in getStateUpdate)
+	Migrated []int `json:"migrated"`
 }
 
 type action struct {
@@ -126,6 +128,8 @@ type step struct {
 	// what the same request without response_flags must be answered (reads that carry flags only)
 	Want0 result `json:"want0"`
 	Res0  result `json:"res0"`
+	// the diff alphabet of the behaviour (RpcRead!scn): "base" or one state-diff section in isolation
+	Scn string `json:"scn,omitempty"`
 }
 
 type input struct {
@@ -133,6 +137,11 @@ type input struct {
 	Backends   []string `json:"backends"` // subset of {"legacy","newstate"}; default both
 	First      int      `json:"first"`    // index of the first behaviour (seeds the concretisation)
 	Huge       int      `json:"huge"`     // the model's HugeNum (stands for 2^64-1); default 5
+	// Sweep: when the replayer itself reads EVERY height of the chain the node holds by number and by hash
+	// (and the head by latest) with every state method and getStateUpdate, judged by the fold of the stored
+	// state updates: "all" after every mutator (directed scripts), "" / "forks" after every Revert and every
+	// Store that follows one (simulated behaviours), "none" never.
+	Sweep string `json:"sweep,omitempty"`
 }
 
 const hugeIdx = 1000000 // the model's HugeIdx, stands for 2^62
@@ -155,6 +164,7 @@ type world struct {
 	slot     map[int]*felt.Felt
 	classH   map[int]*felt.Felt // class id -> class hash (9 = never declared)
 	casmH    *felt.Felt
+	casmV2   *felt.Felt
 	cairo0   core.ClassDefinition
 	sierra   *core.SierraClass
 	txs      map[int]core.Transaction
@@ -175,9 +185,9 @@ func newWorld(seed int64) *world {
 	w.slot[1] = g.Felt()
 	w.slot[2] = chainkit.F(uint64(5 + seed%3))
 	ch, cls := g.Cairo0Class()
-	sh, c1, _, scls := g.SierraClass()
+	sh, c1, c2, scls := g.SierraClass()
 	w.classH[1], w.cairo0 = &ch, cls
-	w.classH[2], w.sierra, w.casmH = &sh, scls, &c1
+	w.classH[2], w.sierra, w.casmH, w.casmV2 = &sh, scls, &c1, &c2
 	w.classH[9] = g.Felt()
 	w.unknownH = g.Felt()
 	return w
@@ -289,6 +299,12 @@ func (w *world) spec(a *action) chainkit.BlockSpec {
 	for _, x := range a.Diff.Nonces {
 		d.Nonces[*w.addr[x[0]]] = chainkit.F(uint64(x[1]))
 	}
+	version := protocolVersions[(n+a.V)%4]
+	for _, k := range a.Diff.Migrated {
+		// a migration of the compiled class hash exists from 0.14.1 on (the class was declared before)
+		d.MigratedClasses[felt.SierraClassHash(*w.classH[k])] = felt.CasmClassHash(*w.casmV2)
+		version = "0.14.1"
+	}
 	txs := make([]core.Transaction, 0, len(a.Txs))
 	rcs := make([]*core.TransactionReceipt, 0, len(a.Txs))
 	for _, t := range a.Txs {
@@ -296,7 +312,7 @@ func (w *world) spec(a *action) chainkit.BlockSpec {
 		txs = append(txs, tx)
 		rcs = append(rcs, rc)
 	}
-	return chainkit.BlockSpec{Version: protocolVersions[(n+a.V)%4], Timestamp: uint64(1000 + 10*n + a.V),
+	return chainkit.BlockSpec{Version: version, Timestamp: uint64(1000 + 10*n + a.V),
 		Diff: d, Classes: classes, Txs: txs, Receipts: rcs}
 }
 
@@ -310,6 +326,7 @@ type sut struct {
 	newState bool
 	servers  map[string]*jsonrpc.Server
 	built    map[string]*chainkit.Built // path -> block as stored at some point
+	absDiff  map[string]*diffT          // path -> the abstract state diff of that block
 	byHash   map[string]string          // block hash -> path
 	backend  string
 	closeDB  func()
@@ -331,7 +348,7 @@ func newSUT(backend string) (*sut, error) {
 		inner, closeDB = pdb, func() { pdb.Close() }
 	}
 	s := &sut{store: newProbeStore(inner), newState: backend == "newstate", built: map[string]*chainkit.Built{},
-		byHash: map[string]string{}, backend: backend, closeDB: closeDB}
+		absDiff: map[string]*diffT{}, byHash: map[string]string{}, backend: backend, closeDB: closeDB}
 	s.node = chainkit.NewNode(s.store, s.newState)
 	return s, s.mount()
 }
@@ -699,7 +716,25 @@ func normDiff(d *diffT) *diffT {
 	}
 	return &diffT{Declared0: sortInts(append([]int{}, d.Declared0...)), Declared1: sortInts(append([]int{}, d.Declared1...)),
 		Deployed: sortRows(append([][]int{}, d.Deployed...)), Replaced: sortRows(append([][]int{}, d.Replaced...)),
-		Storage: sortRows(append([][]int{}, d.Storage...)), Nonces: sortRows(append([][]int{}, d.Nonces...))}
+		Storage: sortRows(append([][]int{}, d.Storage...)), Nonces: sortRows(append([][]int{}, d.Nonces...)),
+		Migrated: sortInts(append([]int{}, d.Migrated...))}
+}
+
+// withoutMigrated is the state diff as v0.8 / v0.9 show it: they have no migrated_compiled_classes.
+func withoutMigrated(r result) result {
+	if r.Kind == "update" && r.Diff != nil && len(r.Diff.Migrated) > 0 {
+		d := *r.Diff
+		d.Migrated = nil
+		r.Diff = &d
+	}
+	if r.Kind == "oneof" {
+		al := make([]result, len(r.Allowed))
+		for i := range r.Allowed {
+			al[i] = withoutMigrated(r.Allowed[i])
+		}
+		r.Allowed = al
+	}
+	return r
 }
 
 // project turns a JSON-RPC response into the abstract result of the given method. Concrete
@@ -887,6 +922,12 @@ func (s *sut) project(w *world, a *action, resp map[string]any) result {
 			d.Declared1 = append(d.Declared1, inv(w.classH, obj(x)["class_hash"]))
 			if str(obj(x)["compiled_class_hash"]) != w.casmH.String() {
 				note(&res, "compiled_class_hash %v, declared with %s", obj(x)["compiled_class_hash"], w.casmH)
+			}
+		}
+		for _, x := range arr(sd["migrated_compiled_classes"]) {
+			d.Migrated = append(d.Migrated, inv(w.classH, obj(x)["class_hash"]))
+			if str(obj(x)["compiled_class_hash"]) != w.casmV2.String() {
+				note(&res, "migrated compiled_class_hash %v, migrated to %s", obj(x)["compiled_class_hash"], w.casmV2)
 			}
 		}
 		res.Diff = normDiff(d)
@@ -1204,6 +1245,20 @@ type replayer struct {
 	s        *sut
 	retained []retained
 	dead     bool // the behaviour was abandoned on this backend after a mutator misbehaved
+	// sweep: the replayer's own reads of every height after a mutator (counted apart from the reads the
+	// specification generated, so that the vacuity guards of those are not fed by them)
+	inSweep   bool
+	sweepMode string
+	only      string // when set, the one API version the reads of the current sweep go to
+	reverted  [][]int // paths of the blocks reverted so far, latest last
+}
+
+// cnt counts an event of a read; the sweep's reads are counted under their own names.
+func (r *replayer) cnt(name string, n int) {
+	if r.inSweep {
+		name = "sweep:" + name
+	}
+	r.out.Count(name, n)
 }
 
 // errAbandon marks a mutator failure already reported as a divergence.
@@ -1228,6 +1283,7 @@ func (r *replayer) mutate1(a *action) error {
 			return fmt.Errorf("path %s re-built with another hash than before", pk)
 		}
 		r.s.built[pk] = b
+		r.s.absDiff[pk] = a.Diff
 		r.s.byHash[b.Block.Hash.String()] = pk
 		return nil
 	case "Revert":
@@ -1327,7 +1383,7 @@ func (r *replayer) checkRetained(beh []step, idx int) {
 }
 
 func (r *replayer) diverge(key, what string, beh []step, idx int, exp, obs any) {
-	in := vh.J{"behaviours": [][]step{beh[:idx+1]}, "backends": []string{r.s.backend}, "huge": hugeNum}
+	in := vh.J{"behaviours": [][]step{beh[:idx+1]}, "backends": []string{r.s.backend}, "huge": hugeNum, "sweep": r.sweepMode}
 	r.out.Diverge(vh.Divergence{Key: key, What: what, Step: idx, Input: in, Expected: exp, Observed: obs})
 }
 
@@ -1474,8 +1530,18 @@ func (r *replayer) read(beh []step, idx int, a *action, want, res, want0, res0 *
 	if flagged(a) {
 		_, fs := flagsParam(a, salt)
 		flagShape = ":flags-" + fs
-		r.out.Count("flagged_requests", 1)
-		r.out.Count("flags:"+fs, 1)
+		r.cnt("flagged_requests", 1)
+		r.cnt("flags:"+fs, 1)
+	}
+	if !r.inSweep && stateMethods[a.Name] || a.Name == "getStateUpdate" && !r.inSweep {
+		// the harness-side oracle (fold of the stored state updates) must demand what the specification does
+		if ow, _, ok := r.expectFromFold(a, chain, l1); ok {
+			r.out.Count("fold_oracle_checks", 1)
+			if d := firstDiff(a.Name, &ow, want); d != "" {
+				r.out.Count("fold_oracle_disagrees_with_spec", 1)
+				r.out.Sample(vh.J{"oracle": ow, "spec": want, "chain": chain, "action": a, "field": d})
+			}
+		}
 	}
 	reverted := false
 	for i := 0; i < idx; i++ {
@@ -1484,6 +1550,9 @@ func (r *replayer) read(beh []step, idx int, a *action, want, res, want0, res0 *
 		}
 	}
 	for _, v := range versions {
+		if r.only != "" && v != r.only {
+			continue
+		}
 		params := r.s.params(r.w, a, v, salt)
 		resp, out, req, err := r.s.call(v, a.Name, params)
 		if err != nil {
@@ -1493,10 +1562,13 @@ func (r *replayer) read(beh []step, idx int, a *action, want, res, want0, res0 *
 		r.keep(a.Name+":"+v, out)
 		raw[v] = resp
 		got := r.s.project(r.w, a, resp)
-		r.out.Count("requests", 1)
+		r.cnt("requests", 1)
 		wantV, resV, fshape := *want, res, flagShape
 		if v != "v10" && flagged(a) {
 			wantV, resV, fshape = *want0, res0, ""
+		}
+		if v != "v10" {
+			wantV = withoutMigrated(wantV) // v0.8 / v0.9 have no migrated_compiled_classes
 		}
 		if v == "v8" && isTag(a) {
 			// spec difference: v0.8 has no such tag
@@ -1506,9 +1578,9 @@ func (r *replayer) read(beh []step, idx int, a *action, want, res, want0, res0 *
 			// the independent oracle (stored state updates) must agree with the specification's demand
 			if n := resolveIn(a.ID, chain, l1); n >= 0 {
 				if o, _, ok := r.lastWriteOracle(chain, n, a.C, a.S); ok {
-					r.out.Count("lub_oracle_checks", 1)
+					r.cnt("lub_oracle_checks", 1)
 					if o != wantV.Lub {
-						r.out.Count("lub_oracle_disagrees_with_spec", 1)
+						r.cnt("lub_oracle_disagrees_with_spec", 1)
 						r.out.Sample(vh.J{"oracle": o, "spec": wantV.Lub, "chain": chain, "action": a})
 					}
 				}
@@ -1517,15 +1589,15 @@ func (r *replayer) read(beh []step, idx int, a *action, want, res, want0, res0 *
 		d := firstDiff(a.Name, &got, &wantV)
 		if d == "" {
 			if wantV.Kind != "err" {
-				r.out.Count("answers_with_data", 1)
-				r.out.Count("data:"+a.Name, 1)
+				r.cnt("answers_with_data", 1)
+				r.cnt("data:"+a.Name, 1)
 				if v == "v10" && a.Fl == "own" {
 					r.countFlagged(a, &got, chain, l1, reverted)
 				}
 			} else {
-				r.out.Count("err:"+wantV.E, 1)
+				r.cnt("err:"+wantV.E, 1)
 				if v == "v10" && a.Fl == "bad" {
-					r.out.Count("flags:bad-refused", 1)
+					r.cnt("flags:bad-refused", 1)
 				}
 			}
 			continue
@@ -1590,7 +1662,7 @@ func (r *replayer) read(beh []step, idx int, a *action, want, res, want0, res0 *
 			}
 			d = sharedDiff(x["result"], yr, "result", false)
 		}
-		r.out.Count("version_pairs_compared", 1)
+		r.cnt("version_pairs_compared", 1)
 		if d != "" {
 			key := fmt.Sprintf("rpc-read:%s:%s~%s:%s:%s", a.Name, pair[0], pair[1], shape, d)
 			rs := res
@@ -1604,6 +1676,214 @@ func (r *replayer) read(beh []step, idx int, a *action, want, res, want0, res0 *
 				beh, idx, x, y)
 		}
 	}
+}
+
+// ---------------------------------------------------------------- the fold oracle and the sweep
+
+// foldState is the state after one block of a chain, computed from nothing but the state updates the
+// harness handed to Blockchain.Store along that chain (independent of the specification and of every
+// history bucket of the node).
+type foldState struct {
+	class    map[int]int    // deployed contract -> class
+	nonce    map[int]int
+	stor     map[[2]int]int
+	lastW    map[[2]int]int // last block whose diff has an entry for the slot
+	declared map[int]bool
+}
+
+func (w *world) idOf(m map[int]*felt.Felt, f *felt.Felt) int {
+	for k, v := range m {
+		if v.Equal(f) {
+			return k
+		}
+	}
+	return -1
+}
+
+func smallInt(f *felt.Felt) int {
+	b := f.BigInt(new(big.Int))
+	if !b.IsInt64() {
+		return -997
+	}
+	return int(b.Int64())
+}
+
+// fold applies the stored state updates of blocks 0..h of the chain with the given path.
+func (r *replayer) fold(chain []int, h int) (*foldState, bool) {
+	st := &foldState{class: map[int]int{}, nonce: map[int]int{}, stor: map[[2]int]int{}, lastW: map[[2]int]int{}, declared: map[int]bool{}}
+	w := r.w
+	for m := 0; m <= h && m < len(chain); m++ {
+		b, ok := r.s.built[pathKey(chain[:m+1])]
+		if !ok {
+			return nil, false
+		}
+		d := b.Update.StateDiff
+		for _, k := range d.DeclaredV0Classes {
+			st.declared[w.idOf(w.classH, k)] = true
+		}
+		for k := range d.DeclaredV1Classes {
+			st.declared[w.idOf(w.classH, &k)] = true
+		}
+		for a, k := range d.DeployedContracts {
+			st.class[w.idOf(w.addr, &a)] = w.idOf(w.classH, k)
+		}
+		for a, k := range d.ReplacedClasses {
+			st.class[w.idOf(w.addr, &a)] = w.idOf(w.classH, k)
+		}
+		for a, n := range d.Nonces {
+			st.nonce[w.idOf(w.addr, &a)] = smallInt(n)
+		}
+		for a, sd := range d.StorageDiffs {
+			for k, v := range sd {
+				key := [2]int{w.idOf(w.addr, &a), w.idOf(w.slot, &k)}
+				st.stor[key] = smallInt(v)
+				st.lastW[key] = m
+			}
+		}
+	}
+	return st, true
+}
+
+// expectFromFold is what the property demands of a state method or getStateUpdate, derived from the fold:
+// want for the request as it is, want0 for the same request without response_flags.
+func (r *replayer) expectFromFold(a *action, chain []int, l1 int) (want, want0 result, ok bool) {
+	if a.Fl == "bad" {
+		return result{Kind: "err", E: "InvalidParams"}, result{}, false
+	}
+	if a.ID == nil {
+		return result{}, result{}, false
+	}
+	n := resolveIn(a.ID, chain, l1)
+	if n < 0 {
+		e := result{Kind: "err", E: "BlockNotFound"}
+		return e, e, true
+	}
+	if a.Name == "getStateUpdate" {
+		p := chain[:n+1]
+		d, okd := r.s.absDiff[pathKey(p)]
+		if !okd {
+			return result{}, result{}, false
+		}
+		u := result{Kind: "update", Hash: p, Old: chain[:n], New: p, Diff: d}
+		return u, u, true
+	}
+	st, okf := r.fold(chain, n)
+	if !okf {
+		return result{}, result{}, false
+	}
+	one := func(x result) (result, result, bool) { return x, x, true }
+	if a.Name == "getClass" {
+		if st.declared[a.C] {
+			return one(result{Kind: "class", C: a.C})
+		}
+		return one(result{Kind: "err", E: "ClassHashNotFound"})
+	}
+	k, deployed := st.class[a.C]
+	if !deployed {
+		return one(result{Kind: "err", E: "ContractNotFound"})
+	}
+	switch a.Name {
+	case "getStorageAt":
+		v := st.stor[[2]int{a.C, a.S}]
+		plain := result{Kind: "felt", V: v}
+		if a.Fl == "own" {
+			lub := st.lastW[[2]int{a.C, a.S}] // 0 when never written
+			return result{Kind: "feltlub", V: v, Lub: lub, LubL: lub}, plain, true
+		}
+		return one(plain)
+	case "getNonce":
+		return one(result{Kind: "felt", V: st.nonce[a.C]})
+	case "getClassHashAt":
+		return one(result{Kind: "classhash", C: k})
+	case "getClassAt":
+		return one(result{Kind: "class", C: k})
+	}
+	return result{}, result{}, false
+}
+
+// sweep reads EVERY height of the chain the node holds now, by number and by hash (the head also by
+// latest), with the five state methods for both contracts and both slots / classes and getStateUpdate, on
+// every API version, and judges each answer by the fold of the stored state updates of THIS chain: whatever
+// a reverted block left behind in a history bucket, a record or a cache shows as the answer of the chain
+// that is gone. The number above the head and the hashes of the reverted blocks must be BLOCK_NOT_FOUND.
+func (r *replayer) sweep(beh []step, idx int, chain []int, l1 int) {
+	if r.dead || len(chain) == 0 {
+		return
+	}
+	r.inSweep = true
+	defer func() { r.inSweep, r.only = false, "" }()
+	if r.sweepMode != "all" {
+		// simulated behaviours: one API version per sweep, in turn (the directed scripts ask all three)
+		r.only = versions[hashOf(r.w.seed, idx, len(chain), "sweep-version")%uint64(len(versions))]
+	}
+	r.out.Count("sweeps", 1)
+	ask := func(a action) {
+		want, want0, ok := r.expectFromFold(&a, chain, l1)
+		if !ok {
+			r.out.Count("sweep:no-oracle", 1)
+			return
+		}
+		r.read(beh, idx, &a, &want, &want, &want0, &want0, chain, l1)
+	}
+	for h := 0; h < len(chain); h++ {
+		ids := []*blockID{{K: "num", N: h}, {K: "hash", N: -1, H: chain[:h+1]}}
+		if h == len(chain)-1 {
+			ids = append(ids, &blockID{K: "latest", N: -1})
+		}
+		for _, id := range ids {
+			ask(action{Name: "getStateUpdate", ID: id})
+			for c := 1; c <= 2; c++ {
+				ask(action{Name: "getNonce", ID: id, C: c})
+				ask(action{Name: "getClassHashAt", ID: id, C: c})
+				ask(action{Name: "getClassAt", ID: id, C: c})
+				for sl := 1; sl <= 2; sl++ {
+					ask(action{Name: "getStorageAt", ID: id, C: c, S: sl, Fl: "own"})
+				}
+				ask(action{Name: "getClass", ID: id, C: c}) // class k_c
+			}
+		}
+	}
+	ask(action{Name: "getClassHashAt", ID: &blockID{K: "num", N: len(chain)}, C: 1})
+	for i := len(r.reverted) - 1; i >= 0 && i >= len(r.reverted)-2; i-- {
+		p := r.reverted[i]
+		if len(p) <= len(chain) && eqInts(p, chain[:len(p)]) {
+			continue // stored again since
+		}
+		ask(action{Name: "getClassHashAt", ID: &blockID{K: "hash", N: -1, H: p}, C: 1})
+		ask(action{Name: "getStateUpdate", ID: &blockID{K: "hash", N: -1, H: p}})
+	}
+}
+
+// afterMutator decides whether the sweep runs after the mutating step idx (see input.Sweep).
+func (r *replayer) afterMutator(beh []step, idx int, a *action, prevChain, chain []int, l1 int) {
+	if a.Name == "Revert" && len(prevChain) > 0 {
+		r.reverted = append(r.reverted, append([]int{}, prevChain...))
+	}
+	switch r.sweepMode {
+	case "none":
+		return
+	case "all":
+	default: // "forks": every Revert, and every Store that follows a Revert (reads between them aside)
+		if a.Name != "Revert" && a.Name != "Store" {
+			return
+		}
+		if a.Name == "Store" {
+			fork := false
+			for i := idx - 1; i >= 0; i-- {
+				n := beh[i].A.Name
+				if n == "Revert" {
+					fork = true
+				}
+				if n == "Revert" || n == "Store" || n == "ReadDuring" {
+					break
+				}
+			}
+			if !fork {
+				return
+			}
+		}
+	}
+	r.sweep(beh, idx, chain, l1)
 }
 
 // observations: what the gated in-flight round saw that C08 does not judge (torn answers, handler
@@ -1781,7 +2061,7 @@ func (r *replayer) race(beh []step, idx int) {
 		for i := range allowed {
 			w := allowed[i]
 			if v != "v10" {
-				w = allowed0[i]
+				w = withoutMigrated(allowed0[i])
 			}
 			if v == "v8" && isTag(a) {
 				w = result{Kind: "err", E: "InvalidParams"}
@@ -1884,12 +2164,23 @@ func TestRpcReadReplay(t *testing.T) {
 			if err != nil {
 				t.Fatal(err)
 			}
-			r := &replayer{t: t, out: out, w: newWorld(vh.Seed()), s: s}
+			r := &replayer{t: t, out: out, w: newWorld(vh.Seed()), s: s, sweepMode: in.Sweep}
+			if len(beh) > 0 && beh[0].Scn != "" {
+				out.Count("scenario:"+beh[0].Scn, 1)
+			}
 			for i := range beh {
 				st := &beh[i]
 				switch st.A.Name {
+				case "Init": // the initial state of a TLC counterexample
+					continue
 				case "Store", "Revert", "SetL1Head", "Restart":
-					_ = r.applyMutator(beh, i, &st.A, st.Chain, st.L1)
+					var prev []int
+					if i > 0 {
+						prev = beh[i-1].Chain
+					}
+					if r.applyMutator(beh, i, &st.A, st.Chain, st.L1) == nil {
+						r.afterMutator(beh, i, &st.A, prev, st.Chain, st.L1)
+					}
 				case "ReadDuring":
 					r.race(beh, i)
 				default:
